@@ -1295,7 +1295,8 @@ func (c *Ctx) decodedBoundRule(rule string) int {
 					if p, ok := t.Underlying().(*types.Pointer); ok {
 						t = p.Elem()
 					}
-					if nt, ok := t.(*types.Named); ok && nt.Obj().Pkg() != nil && strings.HasSuffix(nt.Obj().Pkg().Path(), "/ovmf") {
+					// (unexported record types only: an exported region type is also stored whole, which would mix its fields)
+					if nt, ok := t.(*types.Named); ok && nt.Obj().Pkg() != nil && strings.HasSuffix(nt.Obj().Pkg().Path(), "/ovmf") && !nt.Obj().Exported() {
 						vals := flow.NewSlicer(c.P).FieldStores(flow.StructFieldKey(cell.X.Type(), cell.Field))
 						if len(vals) > 0 && depth < 8 {
 							for _, sv := range vals {
